@@ -169,7 +169,11 @@ class VEnc(object):
         params = []
         for p in e['params']:
             if p['kind'] == 'Surface':
-                params.append(self.l([self.n(0), self.n(p['uid']), self.aval(p['id']), self.text(p['format']),
+                sid = self.aval(p['id'])
+                if not p['uid'] and isinstance(p['id'], str) and p['id'].endswith('-surface'):
+                    # made by the loader for a <texture> that names an image: "<image id>-surface" (Model/LoadDoc.v)
+                    sid = self.l([self.n(3), self.n(self.atom(p['id'][:-len('-surface')]))])
+                params.append(self.l([self.n(0), self.n(p['uid']), sid, self.text(p['format']),
                                       self.n(p['image']['uid'] if p.get('image') else 0)]))
             elif p['kind'] == 'Sampler2D':
                 params.append(self.l([self.n(1), self.n(p['uid']), self.aval(p['id']), self.text(p['minfilter']),
@@ -401,6 +405,8 @@ def feature_counts(cases):
                 walk(n)
                 if any(r in ids[k + 1:] for r in expect.inst_refs(n)):
                     inc('scene node instantiating a later top-level node')
+        if d.get('repair_paths'):
+            inc('effect whose <texture> names an image directly (loader repair path)')
         for k in d.get('split_libraries', []):
             inc('library written as two elements')
         if d.get('foreign'):
@@ -435,7 +441,7 @@ def run(ctx):
     coq_ids = list(range(ncoq_total)) + [len(cases) + k for k, c in enumerate(shipped) if len(c['xml']) < 8000]
     terms, idx, tables, encode_errors = [], [], [], []
     for i in coq_ids:
-        if 'snap' not in results[i] or (allc[i].get('desc') or {}).get('repair_paths'):
+        if 'snap' not in results[i]:
             continue
         try:
             t, table = coq_case(allc[i]['xml'].encode('utf-8'), results[i]['snap'], dom=(len(terms) % 4 == 0))
